@@ -33,6 +33,8 @@ class Profile:
         self.raw_garbage = 0.0       # probability per quiescent point of hostile bytes on a report channel
         self.max_idle_advances = 0   # >0: give up (TERM, no drain required) after so many clock steps without a command
         self.qq_fail = 0.0           # probability that one of the daemon's own injections (bounces) fails
+        self.count = "m"             # call classes counted for NQV_PLAN indices
+        self.trace_extra = ""        # further shim classes to log (e.g. "tr" for stat and read)
         self.__dict__.update(kw)
 
 
@@ -83,7 +85,7 @@ class History:
         self.ledger = ledgermod.Ledger(res, lifetime=self.lifetime)
         self.oracles = [self.ledger] + [oc(res, self) for oc in oracle_classes]
         self.sim = qsim.Sim(b, controls=controls, spawn_limit=self.spawn, gate_m=p.gate_m,
-                            trace="mo" if p.gate_m else "m", plan=plan, oracles=self.oracles, label=label)
+                            trace=("mo" if p.gate_m else "m") + p.trace_extra, plan=plan, count=p.count, oracles=self.oracles, label=label)
         if p.gate_m:
             self.sim.gate_progs = "qmail-send,qmail-clean"
         if p.qq_fail:
@@ -238,10 +240,11 @@ class History:
                     cmd = sim.outstanding[k]
                     sim.report(cmd, self.choose_report(cmd))
                     continue
-                left = sim.scan()
+                # garbage awaiting the 36 h collector (S2/S3 leftovers of a crash during elimination) is not a message
+                left = {n: d for n, d in sim.scan().items() if "info" in d or "todo" in d or not d <= {"mess", "intd"}}
                 o = rng.random()
                 if not left and not sim.outstanding:
-                    if self.nmsg < p.max_msgs and rng.random() < 0.6:
+                    if self.nmsg < p.max_msgs and (self.nmsg == 0 or rng.random() < 0.6):
                         self.newmsg()
                         continue
                     self.finished = True
